@@ -591,6 +591,40 @@ func payloadWriter(c *Ctx, pk *Packager) *ssa.Function {
 				}
 			}
 		})
+		if loops && !comparesType {
+			// the loop hands each entry to a helper of the same package that
+			// branches on its type
+			forEachInstr(fn, func(in ssa.Instruction) {
+				call, ok := in.(*ssa.Call)
+				if !ok || comparesType {
+					return
+				}
+				g := call.Call.StaticCallee()
+				if g == nil || len(g.Blocks) == 0 || c.funcPkgPath(g) != pk.PkgPath {
+					return
+				}
+				takesEntry := false
+				for _, a := range call.Call.Args {
+					if isContentPtr(a.Type()) {
+						takesEntry = true
+					}
+				}
+				if !takesEntry {
+					return
+				}
+				forEachInstr(g, func(i2 ssa.Instruction) {
+					if x, ok := i2.(*ssa.BinOp); ok && (x.Op == token.EQL || x.Op == token.NEQ) {
+						for _, side := range []ssa.Value{x.X, x.Y} {
+							if ld, ok := side.(*ssa.UnOp); ok && ld.Op == token.MUL {
+								if fa, ok := ld.X.(*ssa.FieldAddr); ok && fieldName(fa.X.Type(), fa.Field) == "Type" && isContentPtr(fa.X.Type()) {
+									comparesType = true
+								}
+							}
+						}
+					}
+				})
+			})
+		}
 		if !comparesType || !loops {
 			continue
 		}
